@@ -120,7 +120,7 @@ def lex_text(rs, cfg, rng, vary=True):
             return t
     text = rs.to_lex(rng, action=act, prologue=prologue,
                      epilogue='#include "fvmain_cxx.cc"\n' if cfg.backend == 'cxx' else '#include "fvmain.c"\n',
-                     vary=vary, extra_options=opts)
+                     vary=vary, extra_options=opts, pct_actions=cfg.backend != 'c99')
     # user <<EOF>> actions
     if cfg.eof_scs:
         eof = ''
@@ -175,6 +175,12 @@ def build_scanner(flex, flexsrc, workdir, name, rs, cfg, lex_seed=0, flex_timeou
     fullish = any(('f' in o or 'F' in o) for o in cfg.topt)
     b['flags']['interactive'] = int(cfg.interactive is True or (cfg.interactive is None and not fullish))
     b['var_rules'] = flexrun.var_rules_of(t)
+    extra = set(b['var_rules']) - rs.expected_var_rules()
+    if extra:
+        b['status'] = 'ccfail'      # reported like a scanner that cannot be built
+        b['cc_output'] = ('flex treats rule(s) %s as variable trailing context rules, but head or trailing part have a fixed length '
+                          'and no \'|\' action precedes' % sorted(extra))
+        return b
     cc = ['g++' if cfg.backend == 'cxx' else 'gcc', '-w', '-O0', '-g', '-D_GNU_SOURCE', '-I', HARNESS, '-I', flexsrc, cf, '-o', exe]
     if cfg.backend == 'cxx':
         cc[1:1] = ['-fpermissive']
